@@ -4,7 +4,7 @@ from . import _alloc_rules
 from .. import affine
 
 ARMED = True
-TECHNIQUE = "value-origin (index provenance), pairing/dominance rules over the allocator's MIR (revive=>generation bump, truncate-before-mutate, kill folds pending raise)"
+TECHNIQUE = "value-origin (index provenance), pairing/dominance rules over the allocator's MIR (revive=>generation bump, truncate-before-mutate, kill folds pending raise); affine abstract interpretation of the generation step functions"
 EXPLANATION = (
     "R1 (index provenance): every modification of the fresh-index counter sits in the failure fallback of a free-list pop, and the index of "
     "every Entity aggregate built by an allocating body (one that makes an index occupied: sets its alive or raised bit) originates in "
@@ -17,12 +17,14 @@ EXPLANATION = (
     "generations[i].raise() }` on the same index - the raise is guarded by the true-edge of the remove, the remove dominates the death of "
     "the slot - or by the bulk idiom (every item of an iteration over `raised` is raised, then raised.clear() dominates the death site)."
 )
-NOT_DECIDED = ("the inductive argument that these mechanisms imply pairwise-distinct handles over every history; the generation arithmetic "
-               "(1 - g, overflow); interleavings of the atomic paths (C10)")
+NOT_DECIDED = ("the inductive argument that these mechanisms imply pairwise-distinct handles over every history; wrap-around of the generation counter "
+               "at the i32 boundary (R5 treats integers as unbounded); interleavings of the atomic paths (C10)")
 TRUSTED = ["rustc nightly MIR", "hibitset BitSet/AtomicBitSet add/remove/clear semantics by name", "Vec method semantics by name", "sa/ analyses"]
 LEVEL_TEXT = ("The four mechanisms the property names are each decided on all CFG paths of the allocator: where an index may come from, that "
               "every revival bumps the generation, that the free list is truncated to its atomic length before and resynchronised after every "
-              "exclusive mutation, and that an immediate kill first folds a pending deferred raise. Uniqueness as a theorem over histories is not decided.")
+              "exclusive mutation, and that an immediate kill first folds a pending deferred raise; and the generation arithmetic itself is decided "
+              "for all inputs by an affine summary of the step functions (die keeps the magnitude, revival strictly increases it). Uniqueness as a "
+              "theorem over histories is not decided.")
 
 
 def configs(tier):
@@ -262,6 +264,7 @@ def r5(ctx, facts, model):
     generation - the arithmetic half of 'every revival bumps the generation' (R2 is the control-flow half)."""
     allb = getattr(facts, "all_bodies", facts.bodies)
     n_live = n_die = n_rev = 0
+    revs = {}
     for b in allb:
         if b.self_ty not in (GEN, ZGEN) or b.argc != 1 or b.kind == "Closure" or b.trait_item:
             continue
@@ -326,6 +329,7 @@ def r5(ctx, facts, model):
                         bad.append("stores y = %s, whose magnitude is below x at x = %s (a later revival can repeat a generation)" % (_fmt_form(f), w2))
         else:
             n_rev += 1
+            revs[b.path] = outs
             for o in outs:
                 dom = affine.refine(o.iv, "le", 1, 0, 0)
                 if dom.empty():
@@ -352,6 +356,25 @@ def r5(ctx, facts, model):
         summ = "; ".join("x in %r -> %s" % (o.iv, "panic" if o.kind == "panic" else ("?" if o.kind == "top" else
                (_fmt_form(affine.as_int_form(o.recv if role == "die" else o.ret)[0][1]) if affine.as_int_form(o.recv if role == "die" else o.ret) else repr(o.ret)))) for o in outs)
         ctx.ob("C01-R5", key, verdict, b.loc(), ("; ".join(bad or und)) + ("   [summary: %s]" % summ if (bad or und) else ""))
+    # sibling agreement on the summaries: the generation a deferred creation hands out (Generation::raised of the pending slot) must be the
+    # one the merge later stores (ZeroableGeneration::raise) - every revival step is the same function of x on the common domain x < 0
+    if len(revs) >= 2:
+        forms = {}
+        for path, outs in revs.items():
+            fs = set()
+            for o in outs:
+                dom = affine.refine(o.iv, "lt", 1, 0, 0)
+                if dom.empty() or o.kind != "ret":
+                    continue
+                f = affine.as_int_form(o.ret)
+                fs.add(_fmt_form(f[0][1]) if f else "?")
+            forms[path] = fs
+        vals = {frozenset(v) for v in forms.values() if v and "?" not in v}
+        und = any("?" in v or not v for v in forms.values())
+        ok = (len(vals) <= 1) if not und else ("undetermined" if len(vals) <= 1 else False)
+        ctx.ob("C01-R5", "all revival steps compute the same generation for a dead slot", ok, "",
+               "" if ok is True else "the revival steps disagree on x < 0 (%s): the handle a deferred creation returns is not the generation the merge stores" %
+               "; ".join("%s: %s" % (k.rsplit("::", 2)[-2] + "::" + k.rsplit("::", 1)[-1], sorted(v)) for k, v in sorted(forms.items())))
     ctx.floor("C01-R5", "generation liveness predicates", n_live, 2)
     ctx.floor("C01-R5", "generation kill steps", n_die, 1)
     ctx.floor("C01-R5", "generation revival steps", n_rev, 3)
